@@ -43,6 +43,14 @@ impl<F: Future> Future for CancelAt<F> {
     type Output = Option<F::Output>;
 
     fn poll(mut self: Pin<&mut Self>, cx: &mut Context<'_>) -> Poll<Self::Output> {
+        // cancellation armed on the k-th storage operation of ANY task (the
+        // victim is woken for it): drop the future wherever its own and its
+        // helpers' progress happens to be
+        if ystore::cancellation_triggered() {
+            self.inner = None;
+            return Poll::Ready(None);
+        }
+        ystore::set_victim_waker(cx.waker().clone());
         let Some(f) = self.inner.as_mut() else {
             return Poll::Ready(None);
         };
@@ -92,6 +100,9 @@ pub struct P {
     /// a second task queries the root concurrently with the victim (lock
     /// contention turns the publishing steps into real suspension points)
     pub reader: bool,
+    /// S part: keep exploring the schedule while the tasks that the dropped
+    /// victim left behind run
+    pub explore: bool,
 }
 
 fn program(name: &str) -> Program {
@@ -106,6 +117,9 @@ fn program(name: &str) -> Program {
 pub enum FaultSpec {
     None,
     CancelAt(usize),
+    /// cancel the victim at the k-th storage operation performed by any task
+    /// after the victim started (its helper tasks included)
+    CancelAtAccess(usize),
     Panic(Fault),
 }
 
@@ -113,6 +127,8 @@ pub enum FaultSpec {
 pub struct Outcome {
     /// suspension points of the victim (uncancelled run)
     pub pendings: usize,
+    /// storage operations of all tasks while the victim ran
+    pub accesses: usize,
     /// executor activations during the victim: (key, run number, reads)
     pub activations: Vec<(Key, usize, usize)>,
     pub violation: Option<String>,
@@ -169,6 +185,9 @@ async fn scenario_generic<C: Config>(
         *sh.fault.lock().unwrap() = Some(f);
     }
     ystore::set_yield_mask(p.ymask);
+    if p.explore {
+        xplore::exploring(true);
+    }
     let reader_handle = if p.reader {
         xplore::exploring(true);
         let (eng3, sh3) = (eng.clone(), sh.clone());
@@ -186,6 +205,10 @@ async fn scenario_generic<C: Config>(
         FaultSpec::CancelAt(n) => n,
         _ => usize::MAX,
     };
+    ystore::arm_cancellation(match spec {
+        FaultSpec::CancelAtAccess(k) => k,
+        _ => 0,
+    });
     let mut session_applied = false;
     let victim_result = {
         let (eng2, sh2) = (eng.clone(), sh.clone());
@@ -223,10 +246,20 @@ async fn scenario_generic<C: Config>(
         Some(h) => h.await.ok(),
         None => None,
     };
+    // what the dropped victim left behind (the guarded rest of the
+    // interrupted operation, the commit-on-drop task of a session) runs
+    // while the schedule is still being explored, in every order
+    if p.explore {
+        for _ in 0..4 {
+            qbice_verif_rt::tokio::task::yield_now().await;
+        }
+    }
     xplore::exploring(false);
     ystore::set_yield_mask(0);
     *sh.fault.lock().unwrap() = None;
     out.pendings = *seen.lock().unwrap();
+    out.accesses = ystore::access_count();
+    ystore::arm_cancellation(0);
     if let Some(v) = reader_value {
         let want = r.eval(&prog, root);
         if Some(v) != want {
@@ -474,7 +507,7 @@ pub fn params(thorough: bool) -> Vec<P> {
                 db,
                 victim: Victim::Query,
                 ymask: ystore::Y_GET | ystore::Y_SET,
-                reader: false,
+                reader: false, explore: false
             });
         }
         v.push(P {
@@ -482,7 +515,7 @@ pub fn params(thorough: bool) -> Vec<P> {
             db: true,
             victim: Victim::Session,
             ymask: ystore::Y_GET | ystore::Y_SET,
-            reader: false,
+            reader: false, explore: false
         });
     }
     if std::env::var("VH_C05_PUT_YIELDS").is_ok() {
@@ -495,14 +528,14 @@ pub fn params(thorough: bool) -> Vec<P> {
         db: true,
         victim: Victim::Refresh,
         ymask: ystore::Y_GET | ystore::Y_SET,
-        reader: false,
+        reader: false, explore: false
     });
     v.push(P {
         prog: "external-chain",
         db: false,
         victim: Victim::Refresh,
         ymask: ystore::Y_GET | ystore::Y_SET,
-        reader: false,
+        reader: false, explore: false
     });
     v
 }
@@ -514,7 +547,7 @@ pub fn params_s(thorough: bool) -> Vec<(P, usize)> {
     } else {
         &["firewall-proj", "diamond-unord"]
     };
-    progs
+    let mut v: Vec<(P, usize)> = progs
         .iter()
         .map(|prog| {
             (
@@ -523,12 +556,26 @@ pub fn params_s(thorough: bool) -> Vec<(P, usize)> {
                     db: false,
                     victim: Victim::Query,
                     ymask: ystore::Y_GET | ystore::Y_SET,
-                    reader: true,
+                    reader: true, explore: false
                 },
                 if thorough { 2 } else { 1 },
             )
         })
-        .collect()
+        .collect();
+    // a cancelled session: the tasks it leaves behind (the guarded rest of
+    // the interrupted operation, the commit-on-drop task) in every order
+    for (prog, db, victim) in [
+        ("firewall-proj", false, Victim::Session),
+        ("firewall-proj", true, Victim::Session),
+        ("external-firewall", false, Victim::Refresh),
+    ] {
+        v.push((
+            P { prog, db, victim, ymask: ystore::Y_GET | ystore::Y_SET, reader: false, explore: true },
+            // the pipeline threads of the cached engine multiply the choice points
+            if db { if thorough { 2 } else { 1 } } else if thorough { 3 } else { 2 },
+        ));
+    }
+    v
 }
 
 thread_local! {
@@ -605,6 +652,12 @@ pub fn check() -> i32 {
                         for n in 1..=base.pendings {
                             specs.push(FaultSpec::CancelAt(n));
                         }
+                        // ... and at every storage operation of any task
+                        // (the victim's helper tasks are somewhere in the
+                        // middle of their work then)
+                        for k in 1..=base.accesses {
+                            specs.push(FaultSpec::CancelAtAccess(k));
+                        }
                         for (k, run_no, reads) in &base.activations {
                             for after in 0..=*reads {
                                 specs.push(FaultSpec::Panic(Fault {
@@ -619,7 +672,7 @@ pub fn check() -> i32 {
                         for spec in specs {
                             let r = run(&p, spec);
                             match spec {
-                                FaultSpec::CancelAt(_) => cancels += 1,
+                                FaultSpec::CancelAt(_) | FaultSpec::CancelAtAccess(_) => cancels += 1,
                                 FaultSpec::Panic(_) => panics += 1,
                                 FaultSpec::None => {}
                             }
@@ -637,6 +690,7 @@ pub fn check() -> i32 {
                                         "scenario_index": idx,
                                         "fault": format!("{spec:?}"),
                                         "cancel_at": match spec { FaultSpec::CancelAt(n) => json!(n), _ => json!(null) },
+                                        "cancel_at_access": match spec { FaultSpec::CancelAtAccess(n) => json!(n), _ => json!(null) },
                                         "panic": match spec { FaultSpec::Panic(f) => json!({"key": format!("{:?}", f.key), "on_run": f.on_run, "after_reads": f.after_reads}), _ => json!(null) },
                                     }),
                                 });
@@ -808,6 +862,8 @@ pub fn replay(v: &Value) -> i32 {
     let p = params(thorough)[v["scenario_index"].as_u64().unwrap() as usize].clone();
     let spec = if let Some(n) = v["cancel_at"].as_u64() {
         FaultSpec::CancelAt(n as usize)
+    } else if let Some(n) = v["cancel_at_access"].as_u64() {
+        FaultSpec::CancelAtAccess(n as usize)
     } else if v["panic"].is_object() {
         let ks = v["panic"]["key"].as_str().unwrap_or("");
         let num: u8 = ks
